@@ -6,13 +6,14 @@ CMP = {'less': 0, 'greater': 1, 'mod': 2, 'stateful': 3}
 UVEC = {'amc': 0, 'small': 1, 'fixed': 2, 'std': 3}
 
 class SetCfg:
-    def __init__(self, impl, n=3, back='std', uvec='amc', cmp='less', cat='int', pool=3):
+    def __init__(self, impl, n=3, back='std', uvec='amc', cmp='less', cat='int', pool=3, ucap=64):
         self.impl, self.n, self.back, self.uvec, self.cmp, self.cat, self.pool = impl, n, back, uvec, cmp, cat, pool
+        self.ucap = ucap            # capacity of a FixedCapacityVector underlying vector
     def name(self):
-        return f'{self.impl}{self.n}_{self.back}_{self.uvec}_{self.cmp}_{self.cat}'
+        return f'{self.impl}{self.n}_{self.back}_{self.uvec}_{self.cmp}_{self.cat}' + (f'_u{self.ucap}' if self.ucap != 64 else '')
     def defs(self):
         return [f'CFG_IMPL={0 if self.impl == "flat" else 1}', f'CFG_N={self.n}', f'CFG_BACK={0 if self.back == "std" else 1}',
-                f'CFG_UVEC={UVEC[self.uvec]}', f'CFG_CMP={CMP[self.cmp]}', f'CFG_CAT={0 if self.cat == "int" else 2}']
+                f'CFG_UVEC={UVEC[self.uvec]}', f'CFG_CMP={CMP[self.cmp]}', f'CFG_CAT={0 if self.cat == "int" else 2}', f'CFG_UCAP={self.ucap}']
     def claims_tr(self):
         """expected value of the container's trivially_relocatable trait (conjunction of its parts)"""
         if self.cat != 'int':
@@ -95,10 +96,11 @@ def parse_line(line):
         o.conts.append((int(f[0]), int(f[1]), f[2]))
     cm = parts[-1].split('=')[1]
     o.cmps = None if cm == '-' else int(cm)
-    o.oracle = 'ok'; o.faults = '-'
+    o.oracle = 'ok'; o.faults = '-'; o.allocs = 0
     if tail:
         t = dict(kv.split('=', 1) for kv in tail.split())
         o.oracle = t.get('oracle', 'ok'); o.faults = t.get('faults', '-')
+        o.allocs = int(t.get('allocs', 0))
     return o
 
 def first_diff(r, use_cmps=True):
